@@ -125,7 +125,9 @@ def run_case(case):
     kw = dict(step_size=DT, simulation_time=STEPS * DT, sampling_step_size=DT, solver=case['solver'],
               vectorize=case['vectorize'], verbose=False, float_precision='float64', backend='default', clear=True)
     if case['solver'] == 'scipy':
-        kw.update(rtol=1e-8, atol=1e-10)
+        # the extrinsic input is piecewise linear: RK45's error estimate is blind to some of its kinks, so the joint and
+        # the single system only agree once the tolerance forces small steps (same observation as C08, DESIGN 8.16)
+        kw.update(rtol=1e-11, atol=1e-13) if case.get('input') else kw.update(rtol=1e-8, atol=1e-10)
     pgrid = {k: list(v) for k, v in case['grid'].items()}
     if case.get('df_index'):
         import pandas as pd
